@@ -92,6 +92,8 @@ def run(tier, seed):
                  "buffer is refilled from the decoder; progress blocks rise by exactly one per callback up to the announced total. "
                  "Not decided: split-invariance as an equality over read histories (follows from these rules only informally).")
     with Context(tier) as ctx:
+        from .. import selfcheck
+        selfcheck.run(ctx, rep, ['facts'])
         mod = ctx.plain()
         rep.analysed = {"view": "plain", "functions": len(mod.defined()), "units": len(ctx.views.units)}
         r = identity_rules(rep, ctx, mod)
